@@ -6,6 +6,7 @@ from vlib.core import Violation, guarded, lib_call
 
 ID = "C16"
 DESIGN_REF = "3/C16"
+ROTATE_TZ = True  # shards run under different local time zones (the property must hold in all of them)
 RULE = (
     "Time domains 1900-2200, spans 1 ms..250 years with the spans around every row of the step table over-represented, start "
     "instants biased to the 28th-31st, 29 Feb, 31 Dec, week ends and instants just before/after boundaries; both orientations; "
